@@ -4,6 +4,7 @@
 -/
 import AttrsModel.Spec.C12
 import AttrsModel.Properties.C01
+import AttrsModel.Properties.C02
 
 namespace Attrs.C12
 open Attrs.Init
@@ -145,7 +146,7 @@ structure WfParts (c : Case) : Prop where
   base : C01.wf { c.base with call := { pos := [], kw := [] } } = true
   aliasNodup : ((c.base.run.attrs.filter (·.init)).map (·.alias)).Nodup
   set : ∀ a ∈ c.base.run.attrs, a.init = true → (curOf c.cur a.name).isSome = true
-  full : c.op = .evolve ∨ ∀ kv ∈ c.cur, kv.2.isSome = true
+  full : c.op = .evolve ∨ (∀ kv ∈ c.cur, kv.2.isSome = true) ∨ c.copyNeedsAll = false
 
 theorem wfParts (c : Case) (h : wf c = true) : WfParts c := by
   unfold wf at h
@@ -155,7 +156,11 @@ theorem wfParts (c : Case) (h : wf c = true) : WfParts c := by
   have h5' := h5
   unfold C01.wf at h5'
   simp only [Bool.and_eq_true, C01.distinct, decide_eq_true_eq] at h5'
-  exact ⟨h1, h2, h3, h4, h5, h5'.1.1.1.1.2, h6, h7⟩
+  refine ⟨h1, h2, h3, h4, h5, h5'.1.1.1.1.2, h6, ?_⟩
+  rcases h7 with (h | h) | h
+  · exact Or.inl h
+  · exact Or.inr (Or.inl h)
+  · exact Or.inr (Or.inr (by simpa using h))
 
 theorem WfParts.inj {c : Case} (p : WfParts c) : AliasInj c.base.run.attrs :=
   aliasInj_of_nodup _ p.aliasNodup
@@ -318,13 +323,164 @@ theorem identOf_some (changed : Bool) (v : Val) :
   cases changed <;> rfl
 
 theorem known_nil (c : Case) (hk : known c = []) :
-    C01.known c.base = [] ∧ (c.op = .evolve → cacheMisplaced c.base.run = false) := by
+    C01.known c.base = [] ∧ (c.op = .evolve → cacheMisplaced c.base.run = false) ∧ tupleName c = false := by
   unfold known at hk
-  obtain ⟨h1, h2⟩ := List.append_eq_nil_iff.1 hk
-  refine ⟨h1, ?_⟩
-  intro hop
-  cases hm : cacheMisplaced c.base.run
-  · rfl
-  · simp [hm, hop] at h2
+  obtain ⟨h12, h3⟩ := List.append_eq_nil_iff.1 hk
+  obtain ⟨h1, h2⟩ := List.append_eq_nil_iff.1 h12
+  refine ⟨h1, ?_, ?_⟩
+  · intro hop
+    cases hm : cacheMisplaced c.base.run
+    · rfl
+    · simp [hm, hop] at h2
+  · cases ht : tupleName c
+    · rfl
+    · simp [ht] at h3
+
+/-! ### assoc's loop over the names -/
+
+theorem assocLoop_all_fields (isField : String → Bool) (hd : Bool) (l : List (String × Val))
+    (h : l.all (fun kv => isField kv.1) = true) : assocLoop isField hd l = none := by
+  induction l with
+  | nil => rfl
+  | cons kv l ih =>
+    simp only [List.all_cons, Bool.and_eq_true] at h
+    simp only [assocLoop, h.1, if_true]
+    exact ih h.2
+
+/-- outside K12a (no non-field name resolves on the fields tuple) the first non-field name raises
+    AttrsAttributeNotFoundError -/
+theorem assocLoop_notFound (isField : String → Bool) (hd : Bool) (l : List (String × Val))
+    (hbad : l.all (fun kv => isField kv.1) = false)
+    (hk : l.any (fun kv => !isField kv.1 && resolvesOnTuple.contains kv.1) = false) :
+    assocLoop isField hd l = some .notFound := by
+  induction l with
+  | nil => simp at hbad
+  | cons kv l ih =>
+    simp only [List.any_cons, Bool.or_eq_false_iff] at hk
+    simp only [List.all_cons, Bool.and_eq_false_iff] at hbad
+    cases hf : isField kv.1 with
+    | true =>
+      simp only [assocLoop, hf, if_true]
+      rcases hbad with h | h
+      · rw [hf] at h; cases h
+      · exact ih h hk.2
+    | false =>
+      have : resolvesOnTuple.contains kv.1 = false := by simpa [hf] using hk.1
+      simp only [assocLoop, hf, this, Bool.false_eq_true, if_false]
+
+/-! ### validators whose verdict depends on the instance -/
+
+theorem setFault_none (k : Init.Case) (h : k.run.fault = none) :
+    ({ k with run := { k.run with fault := none } } : Init.Case) = k := by
+  obtain ⟨run, call, d, s⟩ := k
+  obtain ⟨cfg, attrs, own, bases, cis, fault⟩ := run
+  simp only at h
+  subst h
+  rfl
+
+/-- the rejecting validator is one of the initializer's validator calls -/
+theorem vetoFault_mem (r : RunIn) (veto : List Veto) (vals : List (String × Option Val)) (f : EventId)
+    (h : vetoFault r veto vals = some f) :
+    r.cfg.runValidators = true ∧ ∃ a ∈ r.attrs.filter participates, ∃ i, i < a.validators ∧
+      f = { kind := "validator", field := a.name, idx := i } := by
+  unfold vetoFault at h
+  split at h
+  · rename_i hr
+    refine ⟨hr, ?_⟩
+    cases hf : (validatorIds r.attrs).find? (fun ni => vetoFires veto vals ni.1 ni.2) with
+    | none => simp [hf] at h
+    | some ni =>
+      simp only [hf, Option.map_some, Option.some.injEq] at h
+      have hm := List.mem_of_find?_eq_some hf
+      unfold validatorIds at hm
+      obtain ⟨a, ha, hmi⟩ := List.mem_flatMap.1 hm
+      obtain ⟨i, hi, rfl⟩ := List.mem_map.1 hmi
+      exact ⟨a, ha, i, List.mem_range.1 hi, h.symm⟩
+  · cases h
+
+theorem vetoFault_isSome (r : RunIn) (veto : List Veto) (vals : List (String × Option Val)) :
+    (vetoFault r veto vals).isSome =
+      (r.cfg.runValidators && (validatorIds r.attrs).any (fun ni => vetoFires veto vals ni.1 ni.2)) := by
+  unfold vetoFault
+  cases hr : r.cfg.runValidators with
+  | false => simp
+  | true =>
+    simp only [if_true, Option.isSome_map, Bool.true_and]
+    rw [Bool.eq_iff_iff]
+    simp only [List.find?_isSome, List.any_eq_true]
+
+/-- a validator call of the initializer is part of its fault-free trace -/
+theorem hits_validator (r : RunIn) (call : Call) (a : Attr) (ha : a ∈ r.attrs.filter participates) (i : Nat)
+    (hi : i < a.validators) (hr : r.cfg.runValidators = true) :
+    C02.hits (some { kind := "validator", field := a.name, idx := i }) (C02.expectedTrace r call) = true := by
+  unfold C02.hits C02.expectedTrace
+  simp only [hr, if_true, List.any_append, Bool.or_eq_true]
+  refine Or.inl (Or.inr ?_)
+  unfold C02.validatorEventsOf
+  rw [List.any_eq_true]
+  refine ⟨C02.ev "validator" a.name i ["self", "attr." ++ a.name, convApply a (C01.rawOf r.attrs call a)], ?_, ?_⟩
+  · exact List.mem_flatMap.2 ⟨a, ha, List.mem_map.2 ⟨i, List.mem_range.2 hi, rfl⟩⟩
+  · simp [C02.ev]
+
+/-- the fault-free run of the initializer on evolve's call, when every change names an init alias: it returns,
+    and stores exactly the declared values -/
+theorem runInit_evolve (c : Case) (p : WfParts c) (hk : C01.known c.base = [])
+    (hall : c.changes.all (fun kv => (c.base.run.attrs.filter (·.init)).any (·.alias == kv.1)) = true) :
+    (runInit (evolveCase c)).exc = none ∧ (runInit (evolveCase c)).values = expectedValues c := by
+  have hok : callOk (params (evolveCase c).run.attrs) (evolveCase c).call = true := by
+    rw [← hall]; exact callOk_evolve c p
+  obtain ⟨e, v⟩ := C01.C01_values (evolveCase c) (wf_evolveCase c p) hk hok
+  refine ⟨e, ?_⟩
+  rw [v]
+  unfold expectedValues
+  apply List.map_congr_left
+  intro a ha
+  rw [show (evolveCase c).call = evolveCall c.base.run.attrs c.cur c.changes from rfl]
+  exact congrArg (Prod.mk a.name) (expected_evolve c p a ha)
+
+/-- the model's first rejecting validator exists iff the declarative `vetoed` says so -/
+theorem vetoFault_evolve (c : Case) (p : WfParts c) (hk : C01.known c.base = [])
+    (hall : c.changes.all (fun kv => (c.base.run.attrs.filter (·.init)).any (·.alias == kv.1)) = true) :
+    (vetoFault (evolveCase c).run c.veto (runInit (evolveCase c)).values).isSome = vetoed c := by
+  rw [vetoFault_isSome, (runInit_evolve c p hk hall).2]
+  rfl
+
+theorem evolveCase_fault (c : Case) (p : WfParts c) : (evolveCase c).run.fault = none := by
+  have hb := p.base
+  unfold C01.wf at hb
+  simp only [Bool.and_eq_true, eff_fault] at hb
+  show c.base.run.fault = none
+  simpa using hb.1.1.1.1.1.1.1
+
+/-- the run in which a validator call raises: the validator's exception comes out -/
+theorem runInit_withFault (c : Case) (p : WfParts c) (hk : C01.known c.base = [])
+    (hall : c.changes.all (fun kv => (c.base.run.attrs.filter (·.init)).any (·.alias == kv.1)) = true)
+    (f : EventId) (hf : vetoFault (evolveCase c).run c.veto (runInit (evolveCase c)).values = some f) :
+    (runInit (withFault (evolveCase c) f)).exc = some .user ∧
+    (runInit (withFault (evolveCase c) f)).trace =
+      C02.cutAt (some f) (C02.expectedTrace (evolveCase c).eff (evolveCase c).call) := by
+  have hok : callOk (params (evolveCase c).run.attrs) (evolveCase c).call = true := by
+    rw [← hall]; exact callOk_evolve c p
+  have hwf2 : C02.wf (withFault (evolveCase c) f) = true := by
+    unfold C02.wf
+    have : ({ withFault (evolveCase c) f with run := { (withFault (evolveCase c) f).run with fault := none } } : Init.Case)
+        = evolveCase c := by
+      have := setFault_none (evolveCase c) (evolveCase_fault c p)
+      simpa [withFault] using this
+    rw [this, wf_evolveCase c p]
+    simpa [withFault] using hok
+  have hk2 : C02.known (withFault (evolveCase c) f) = [] := hk
+  obtain ⟨hr, a, ha, i, hi, rfl⟩ := vetoFault_mem _ _ _ f hf
+  have hexc := C02.C02_exception_propagates _ hwf2 hk2
+  have htr := C02.C02_fault_prefix _ hwf2 hk2
+  have heff : (withFault (evolveCase c) { kind := "validator", field := a.name, idx := i }).eff.fault =
+      some { kind := "validator", field := a.name, idx := i } := rfl
+  have hsame : C02.expectedTrace (withFault (evolveCase c) { kind := "validator", field := a.name, idx := i }).eff
+      (withFault (evolveCase c) { kind := "validator", field := a.name, idx := i }).call =
+      C02.expectedTrace (evolveCase c).eff (evolveCase c).call := rfl
+  rw [heff, hsame] at hexc htr
+  refine ⟨?_, htr⟩
+  rw [hexc, hits_validator (evolveCase c).eff (evolveCase c).call a ha i hi hr]
+  rfl
 
 end Attrs.C12
